@@ -196,7 +196,7 @@ theorem site_accepted (site : CallSite) (h : site.ok = true) (d : List Int) (hd 
     validate ⟨c, n, true⟩ d fft2Plan ⟨cshape ++ [2], .float32⟩ = .ok ⟨cshape ++ [2], .float32⟩ ∧
     validate ⟨c, n, true⟩ d ifft2Plan ⟨cshape ++ [2], .float32⟩ = .ok ⟨cshape ++ [2], .float32⟩ := by
   simp only [CallSite.ok, Bool.and_eq_true, List.all_eq_true] at h
-  have hacc := h.1.2 d hd
+  have hacc := h.1 d hd
   simp only [dimsAcceptable, Bool.and_eq_true, Bool.not_eq_true'] at hacc
   have A : Accepts d cshape := by
     refine ⟨hacc.1.1, ?_, hacc.1.2, ?_⟩
